@@ -192,6 +192,7 @@ def _reparse_raw_stmtlike(self: fst.FST, new_lines: list[str], ln: int, col: int
 
     shares_line = bool(
         lines[pln][:pcol].strip()
+        or (pln and lines[pln - 1].endswith('\\'))  # line continuation, the logical line started earlier
         or (not in_blkhead and (l := lines[pend_ln][pend_col:].lstrip()) and not l.startswith('#'))
     )  # shares line with other statements or a block header (semicolons, `if a: stmt`), what is valid for this statement alone may not be valid or may mean something else there
 
